@@ -29,9 +29,14 @@ THEOREMS = [
     'CC.C17_roundtrip', 'CC.C17_roundtrip_codec', 'CC.C17_dictify_converts', 'CC.C17_undictify_scalar_list',
     'CC.C17_circuit_complex', 'CC.C17_no_decorated_loader', 'CC.C17_notation_shape', 'CC.C17_mixed_keys',
 ]
-OPEN_STATEMENTS = []
+OPEN_STATEMENTS = [
+    'circuit loader, general clause "every kind of the circuit table loads to exactly the given id, nodes and value": in CC.Properties.C17 only '
+    'C17_circuit_table_total (names), C17_circuit_pure/idempotent and C17_circuit_complex (impedance, fixed id/nodes); the constructor half is '
+    'proved on the Circuit group\'s model (CC.C19_stored_unaltered, CC.C07_reads_written); the dictionary → constructor-call step '
+    '(generateComponent) is tied by correspondence + intended-meaning oracle only',
+]
 ASSUMPTIONS = [
-    'json/yaml are parameters of the model: `loads (dumps t) = t` on plain trees (checked per case by the round-trip oracle)',
+    'json/yaml are parameters of the model: `loads (dumps t) = t` on plain trees for the library pairs of the two tables (LosslessCodec; checked per case by the round-trip oracle; satisfiability shown by a toy codec only)',
     'cos, sin, the binary64 product x*(pi/180) and np.deg2rad are parameters (the harness passes numpy\'s values); polar values are compared within 1e-12 relative',
     'hand-written model CC/Model/Load.lean is tied to the code by this correspondence; its tables are generated (CC/Gen/LoadTables.lean)',
     'domain of the correspondence: string keys; a phase is a JSON number (bool/complex/list phases go through numpy broadcasting and are not modelled)',
